@@ -789,3 +789,228 @@ Proof.
   destruct (decode_encode_at _ _ _ _ _ _ _ _ _ _ _ _ _ G Cv E) as [a' [A2' D]].
   rewrite (crop_whole a gx gy gz L) in A2'. apply Ok_inj in A2'. now subst a'.
 Qed.
+
+(* ---------------- when the encoder succeeds; the odd sub-block count defect ---------------- *)
+
+Lemma lin_lt a b c wx wy wz : a < wx -> b < wy -> c < wz -> (c * wy + b) * wx + a < wx * wy * wz.
+Proof.
+  intros Ha Hb Hc.
+  assert ((c * wy + b) * wx + a < (c * wy + b + 1) * wx) by nia.
+  assert (c * wy + b + 1 <= wz * wy) by nia.
+  assert ((c * wy + b + 1) * wx <= wz * wy * wx) by (apply N.mul_le_mono_r; assumption).
+  replace (wx * wy * wz) with (wz * wy * wx) by ring. lia.
+Qed.
+
+Lemma gather_ok vol wx wy wz ox oy oz gx gy gz :
+  length vol = N.to_nat (wx * wy * wz) ->
+  ox + 8 * gx <= wx -> oy + 8 * gy <= wy -> oz + 8 * gz <= wz -> 0 < gx -> 0 < gy ->
+  exists sbs, gather vol wx wy ox oy oz gx gy gz = Ok sbs.
+Proof.
+  intros L Hx Hy Hz Gx Gy. unfold gather. apply mapR_total. intros s Hs. apply In_nseq in Hs.
+  unfold sb_vox. apply mapR_total. intros i Hi. apply In_nseq in Hi.
+  assert (Sx : s mod gx < gx) by (apply N.mod_upper_bound; lia).
+  assert (Sy : (s / gx) mod gy < gy) by (apply N.mod_upper_bound; lia).
+  assert (Sz : s / (gx * gy) < gz) by (apply N.div_lt_upper_bound; [lia|]; lia).
+  set (sx := s mod gx) in *. set (sy := (s / gx) mod gy) in *. set (sz := s / (gx * gy)) in *.
+  clearbody sx sy sz. clear Hs.
+  assert (X : sx * 8 + ox + i mod 8 < wx) by (clear -Sx Hx; lia).
+  assert (Y : sy * 8 + oy + (i / 8) mod 8 < wy) by (clear -Sy Hy; lia).
+  assert (Z : sz * 8 + oz + i / 64 < wz) by (clear -Sz Hz Hi; lia).
+  cbv zeta. rewrite vol_at_rows by exact X.
+  pose proof (lin_lt _ _ _ wx wy wz X Y Z) as LT.
+  destruct (nth_N_lt_Some vol (((sz * 8 + oz + i / 64) * wy + (sy * 8 + oy + (i / 8) mod 8)) * wx + (sx * 8 + ox + i mod 8)))
+    as [v Hv]; [clear -LT L; lia|].
+  exists v. now rewrite Hv.
+Qed.
+
+Lemma mapO_total {A B} (f : A -> option B) l :
+  (forall a, In a l -> exists b, f a = Some b) -> exists r, mapO f l = Some r.
+Proof.
+  induction l as [|a l IH]; intro H; [exists []; reflexivity|].
+  destruct (H a (or_introl eq_refl)) as [b Hb].
+  destruct IH as [r Hr]; [intros; apply H; now right|].
+  exists (b :: r). simpl. now rewrite Hb, Hr.
+Qed.
+
+(* legal geometry, every label in the table: the encoder returns a block unless the number of
+   sub-blocks is odd and the table has more than one label *)
+Theorem encode_at_ok tbl vol wx wy wz ox oy oz gx gy gz :
+  length vol = N.to_nat (wx * wy * wz) -> wx * wy * wz < 4294967295 ->
+  2 <= gx <= 128 -> 2 <= gy <= 128 -> 2 <= gz <= 128 ->
+  ox + 8 * gx <= wx -> oy + 8 * gy <= wy -> oz + 8 * gz <= wz ->
+  exists sbs, gather vol wx wy ox oy oz gx gy gz = Ok sbs /\
+    (covers tbl sbs -> N.odd (gx * gy * gz) = false \/ (exists l, tbl = [l]) ->
+     exists b, encode_at tbl vol wx wy wz ox oy oz gx gy gz = Ok b).
+Proof.
+  intros L Hv Gx Gy Gz Hx Hy Hz.
+  destruct (gather_ok vol wx wy wz ox oy oz gx gy gz L Hx Hy Hz ltac:(lia) ltac:(lia)) as [sbs G].
+  exists sbs. split; [exact G|]. intros C Hodd.
+  unfold encode_at.
+  assert (SC : size_checks wx wy wz ox oy oz gx gy gz = true).
+  { unfold size_checks. rewrite !andb_true_iff, !negb_true_iff, !orb_false_iff.
+    change n_MaxSubBlockSize with 128.
+    repeat split; try (apply N.ltb_ge; lia); apply N.leb_gt; lia. }
+  rewrite SC. cbn [negb]. rewrite G.
+  assert (M : exists idxs, mapO (fun e => mapO (fun l => index_of l tbl) (se_tbl e)) (map enc_sb sbs) = Some idxs).
+  { apply mapO_total. intros e He. apply in_map_iff in He as [vox [Ee Hvox]]. subst e.
+    apply mapO_total. intros l Hl. unfold enc_sb in Hl. cbn [se_tbl] in Hl.
+    destruct (sb_table_props vox) as [_ [_ Inc]]. apply Inc in Hl.
+    apply index_of_In. apply C. apply in_concat. exists vox. split; assumption. }
+  destruct M as [idxs M].
+  destruct tbl as [|l1 [|l2 tbl']].
+  - destruct Hodd as [O|[l El]]; [|discriminate]. rewrite O, M. eauto.
+  - eauto.
+  - destruct Hodd as [O|[l El]]; [|discriminate]. rewrite O, M. eauto.
+Qed.
+
+(* the defect: with an odd number of sub-blocks and a table of two or more labels no block is
+   ever returned *)
+Theorem encode_odd_refused tbl vol wx wy wz ox oy oz gx gy gz :
+  N.odd (gx * gy * gz) = true -> (forall l, tbl <> [l]) ->
+  forall b, encode_at tbl vol wx wy wz ox oy oz gx gy gz <> Ok b.
+Proof.
+  intros O Hne b E.
+  assert (exists sbs, gather vol wx wy ox oy oz gx gy gz = Ok sbs) as [sbs G].
+  { unfold encode_at in E. destruct (negb (size_checks _ _ _ _ _ _ _ _ _)); [discriminate|].
+    destruct (gather vol wx wy ox oy oz gx gy gz) as [sbs| |]; [eauto|discriminate|discriminate]. }
+  destruct (encode_at_sem _ _ _ _ _ _ _ _ _ _ _ _ _ G E) as [_ [_ [_ [_ [[l [El _]]|[_ [O' _]]]]]]].
+  - exact (Hne l El).
+  - congruence.
+Qed.
+
+(* ---------------- point views: Value and GetPointLabels ---------------- *)
+
+Lemma gather_point vol wx wy ox oy oz gx gy gz sbs x y z :
+  gather vol wx wy ox oy oz gx gy gz = Ok sbs -> x < 8 * gx -> y < 8 * gy -> z < 8 * gz ->
+  exists vox v, nth_N sbs (sb_of gx gy x y z) = Some vox /\ nth_N vox (loc_of x y z) = Some v /\
+    vol_at (rows wx vol) ((oz + z) * wy + (oy + y)) (ox + x) = Some v /\ In v (concat sbs).
+Proof.
+  intros G Hx Hy Hz.
+  destruct (sb_of_spec gx gy x y z Hx Hy) as [S1 [S2 S3]].
+  pose proof (sb_of_lt gx gy gz x y z Hx Hy Hz) as SL.
+  destruct (loc_of_spec x y z) as [L1 [L2 [L3 L4]]].
+  destruct (gather_nth _ _ _ _ _ _ _ _ _ _ _ G SL) as [vox [V1 V2]].
+  destruct (sb_vox_nth _ _ _ _ _ _ _ _ _ _ V2 L4) as [v [W1 W2]].
+  exists vox, v. split; [exact V1|]. split; [exact W1|]. split.
+  - rewrite S1, S2, S3, L1, L2, L3 in W2.
+    replace (z / 8 * 8 + oz + z mod 8) with (oz + z) in W2 by (clear; lia).
+    replace (y / 8 * 8 + oy + y mod 8) with (oy + y) in W2 by (clear; lia).
+    replace (x / 8 * 8 + ox + x mod 8) with (ox + x) in W2 by (clear; lia). exact W2.
+  - apply in_concat. exists vox. split; eapply nth_error_In; [exact V1 | exact W1].
+Qed.
+
+Lemma sb_sem_bp labels ixs vs vox bp :
+  sb_sem labels ixs vs vox ->
+  (if N.of_nat (length ixs) <? 2 then bp else bp + 512 * bits_for (N.of_nat (length ixs)))
+  = bp + 8 * N.of_nat (length vs).
+Proof.
+  intros [Hn [_ [_ [Hvs _]]]].
+  destruct (N.of_nat (length ixs) <? 2) eqn:E.
+  - apply N.ltb_lt in E. unfold bits_for in Hvs. apply N.ltb_lt in E. rewrite E in Hvs. lia.
+  - lia.
+Qed.
+
+Lemma Sem_split labels ns idx vals voxs :
+  Sem labels ns idx vals voxs ->
+  forall s vox ip bp, nth_error voxs s = Some vox ->
+  exists pre_i ixs post_i pre_v vs post_v,
+    idx = pre_i ++ ixs ++ post_i /\ vals = pre_v ++ vs ++ post_v /\
+    sb_sem labels ixs vs vox /\ nth_error ns s = Some (N.of_nat (length ixs)) /\
+    prefix_pos (firstn s ns) ip bp = (ip + N.of_nat (length pre_i), bp + 8 * N.of_nat (length pre_v)).
+Proof.
+  induction 1 as [|ixs vs vox0 ns idx vals voxs Hsb _ IH]; intros s vox ip bp Hs.
+  - destruct s; discriminate.
+  - destruct s as [|s].
+    + simpl in Hs. inversion Hs; subst vox0.
+      exists [], ixs, idx, [], vs, vals. cbn [app length firstn prefix_pos nth_error].
+      split; [reflexivity|]. split; [reflexivity|]. split; [exact Hsb|]. split; [reflexivity|].
+      f_equal; lia.
+    + simpl in Hs.
+      destruct (IH s vox (ip + N.of_nat (length ixs)) (bp + 8 * N.of_nat (length vs)) Hs)
+        as [pre_i [ixs' [post_i [pre_v [vs' [post_v [E1 [E2 [S [Hn P]]]]]]]]]].
+      exists (ixs ++ pre_i), ixs', post_i, (vs ++ pre_v), vs', post_v.
+      cbn [firstn prefix_pos nth_error]. rewrite (sb_sem_bp _ _ _ _ bp Hsb), P.
+      split; [rewrite E1; now rewrite app_assoc|].
+      split; [rewrite E2; now rewrite app_assoc|].
+      split; [exact S|]. split; [exact Hn|].
+      rewrite !app_length. f_equal; lia.
+Qed.
+
+Lemma read_sem b voxs x y z vox v :
+  (2 <= length (b_labels b))%nat ->
+  Sem (b_labels b) (b_nsb b) (b_idx b) (b_vals b) voxs ->
+  x < 8 * b_gx b -> y < 8 * b_gy b -> z < 8 * b_gz b ->
+  nth_N voxs (sb_of (b_gx b) (b_gy b) x y z) = Some vox -> nth_N vox (loc_of x y z) = Some v ->
+  value_at b x y z = Ok v /\ point_label b x y z = Ok v.
+Proof.
+  intros HL S Hx Hy Hz Hvox Hv.
+  pose proof (sb_of_lt _ _ _ x y z Hx Hy Hz) as SL.
+  set (sbNum := sb_of (b_gx b) (b_gy b) x y z) in *.
+  unfold nth_N in Hvox.
+  destruct (Sem_split _ _ _ _ _ S (N.to_nat sbNum) vox 0 0 Hvox)
+    as [pre_i [ixs [post_i [pre_v [vs [post_v [E1 [E2 [Ssb [Hn P]]]]]]]]]].
+  rewrite !N.add_0_l in P.
+  destruct Ssb as [Hn1 [_ [_ [Hvs Hf]]]].
+  destruct (Hf (N.to_nat (loc_of x y z)) v Hv) as [f [ix [F1 [F2 F3]]]].
+  rewrite N2Nat.id in F1.
+  set (n := N.of_nat (length ixs)) in *. set (k := bits_for n) in *.
+  assert (Hidx : nth_N (b_idx b) (N.of_nat (length pre_i) + f) = Some ix).
+  { rewrite E1, nth_N_app_r. now apply nth_N_app_Some. }
+  assert (Hread : k <> 0 -> get_packed (b_vals b) (8 * N.of_nat (length pre_v) + loc_of x y z * k) k = Ok f).
+  { intro K. unfold field in F1. replace (k =? 0) with false in F1 by (symmetry; now apply N.eqb_neq).
+    rewrite E2, get_packed_shift. now apply get_packed_mono. }
+  assert (K0 : k = 0 -> f = 0).
+  { intro K. unfold field in F1. rewrite K in F1. simpl in F1. apply Ok_inj in F1. now symmetry. }
+  assert (Kn : k = 0 <-> n = 1).
+  { split; intro H.
+    - destruct (N.lt_ge_cases n 2); [lia|]. pose proof (bits_for_range n ltac:(lia)). fold k in H1. lia.
+    - unfold k. rewrite H. reflexivity. }
+  destruct (b_labels b) as [|l1 [|l2 ls]] eqn:EL; [simpl in HL; lia | simpl in HL; lia|].
+  split.
+  - unfold value_at.
+    replace ((8 * b_gx b <=? x) || (8 * b_gy b <=? y) || (8 * b_gz b <=? z)) with false
+      by (symmetry; rewrite !orb_false_iff; repeat split; apply N.leb_gt; assumption).
+    rewrite EL. fold sbNum. unfold nth_N at 1. rewrite Hn, P. fold n. fold k.
+    destruct (k =? 0) eqn:K.
+    + apply N.eqb_eq in K. specialize (K0 K). subst f. rewrite N.add_0_r in Hidx.
+      rewrite Hidx, F3. reflexivity.
+    + apply N.eqb_neq in K. rewrite (Hread K), Hidx, F3. reflexivity.
+  - unfold point_label. rewrite EL. fold sbNum.
+    replace (b_gx b * b_gy b * b_gz b <=? sbNum) with false by (symmetry; apply N.leb_gt; exact SL).
+    unfold nth_N at 1. rewrite Hn, P. fold n. fold k.
+    replace (n =? 0) with false by (symmetry; apply N.eqb_neq; lia).
+    destruct (n =? 1) eqn:N1.
+    + apply N.eqb_eq in N1. apply Kn in N1. specialize (K0 N1). subst f. rewrite N.add_0_r in Hidx.
+      rewrite Hidx, F3. reflexivity.
+    + apply N.eqb_neq in N1. assert (K : k <> 0) by (intro K; apply N1; now apply Kn).
+      rewrite (Hread K), Hidx, F3. reflexivity.
+Qed.
+
+(* the label at a point of the encoded block is the label of the array at that point *)
+Theorem value_at_encode tbl vol wx wy wz ox oy oz gx gy gz sbs b x y z :
+  gather vol wx wy ox oy oz gx gy gz = Ok sbs -> covers tbl sbs ->
+  encode_at tbl vol wx wy wz ox oy oz gx gy gz = Ok b ->
+  x < 8 * gx -> y < 8 * gy -> z < 8 * gz ->
+  exists v, vol_at (rows wx vol) ((oz + z) * wy + (oy + y)) (ox + x) = Some v /\
+            value_at b x y z = Ok v /\ point_label b x y z = Ok v.
+Proof.
+  intros G C E Hx Hy Hz.
+  destruct (encode_at_sem _ _ _ _ _ _ _ _ _ _ _ _ _ G E) as [Ex [Ey [Ez [El Cases]]]].
+  destruct (gather_point _ _ _ _ _ _ _ _ _ _ x y z G Hx Hy Hz) as [vox [v [V1 [V2 [V3 V4]]]]].
+  exists v. split; [exact V3|].
+  destruct Cases as [[l [Et Eb]] | [Hne [_ S]]].
+  - subst b tbl. specialize (C v V4). destruct C as [C|[]]. subst v.
+    unfold value_at, point_label, solid_block. cbn [b_gx b_gy b_gz b_labels].
+    replace ((8 * gx <=? x) || (8 * gy <=? y) || (8 * gz <=? z)) with false
+      by (symmetry; rewrite !orb_false_iff; repeat split; apply N.leb_gt; assumption).
+    split; reflexivity.
+  - rewrite <- Ex in Hx. rewrite <- Ey in Hy. rewrite <- Ez in Hz.
+    apply (read_sem b sbs x y z vox v).
+    + rewrite El. destruct tbl as [|l1 [|l2 t]]; simpl; try lia.
+      * exfalso. exact (C v V4).
+      * exfalso. exact (Hne l1 eq_refl).
+    + rewrite El. exact S.
+    + exact Hx. + exact Hy. + exact Hz.
+    + rewrite Ex, Ey. exact V1.
+    + exact V2.
+Qed.
